@@ -285,12 +285,22 @@ impl<T> AsRef<str> for SourceText<T> where T: AsRef<str> {
 }
 
 
+/// Returns the longest prefix of the text that is at most `len` bytes long and
+/// ends on a character boundary.
+fn truncated(text: &str, len: usize) -> &str {
+    let mut end = len;
+    while !text.is_char_boundary(end) {
+        end -= 1;
+    }
+    &text[0..end]
+}
+
 impl<T> std::fmt::Display for SourceText<T> where T: AsRef<str> {
     fn fmt(&self, f: &mut std::fmt::Formatter<'_>) -> std::fmt::Result {
         let text = self.as_str();
 
         if text.len() > SOURCE_TEXT_DISPLAY_LEN {
-            write!(f, "{}...", &text[0..SOURCE_TEXT_DISPLAY_LEN])?;
+            write!(f, "{}...", truncated(text, SOURCE_TEXT_DISPLAY_LEN))?;
         } else {
             write!(f, "{text}")?;
         };
@@ -303,7 +313,7 @@ impl<T> std::fmt::Debug for SourceText<T>  where T: AsRef<str> {
     fn fmt(&self, f: &mut std::fmt::Formatter<'_>) -> std::fmt::Result {
         let text = self.as_str();
         let src = if text.len() > SOURCE_TEXT_DEBUG_LEN {
-            format!("{}...", &text[0..SOURCE_TEXT_DEBUG_LEN])
+            format!("{}...", truncated(text, SOURCE_TEXT_DEBUG_LEN))
         } else {
             format!("{text}")
         };
